@@ -356,24 +356,29 @@ def addConnection (w : World) (c : Nat) : R :=
 
 /-! ### reorder -/
 
+/-- `blk.connection_name.remove(orig); blk.connection_name.add(names)`; `none` = KeyError -/
+def connReplace (w : World) (b : Nat) (orig names : CName) : Option World :=
+  match connRemove w b orig with
+  | none => none
+  | some w1 => some (w1.connAdd b names)
+
+/-- `con.block = con.block[::-1]; con.distance = con.distance[::-1];
+    if con.dircos is not None: con.dircos = -con.dircos; con.nad1, con.nad2 = con.nad2, con.nad1` -/
+def flipCon (con : Con) : Con :=
+  { con with b0 := con.b1, b1 := con.b0, d0 := con.d1, d1 := con.d0,
+             dircos := con.dircos.map (fun x => -x), nad1 := con.nad2, nad2 := con.nad1 }
+
 /-- the reversal branch of `reorder` for connection `c` found under `orig`, wanted under `names` -/
 def flipConnection (w : World) (c : Nat) (orig names : CName) : R :=
-  let con := w.cn c
-  -- con.block = con.block[::-1]; con.distance = con.distance[::-1];
-  -- if con.dircos is not None: con.dircos = -con.dircos; con.nad1, con.nad2 = con.nad2, con.nad1
-  let con' : Con := { con with b0 := con.b1, b1 := con.b0, d0 := con.d1, d1 := con.d0,
-                               dircos := con.dircos.map (fun x => -x), nad1 := con.nad2, nad2 := con.nad1 }
+  let con' := flipCon (w.cn c)
   let w1 := w.setCon c con'
   -- for blk in con.block: blk.connection_name.remove(orignames); blk.connection_name.add(names)
-  match connRemove w1 con'.b0 orig with
+  match connReplace w1 con'.b0 orig names with
   | none => .error (.keyError, w1)
   | some w2 =>
-    let w3 := w2.connAdd con'.b0 names
-    match connRemove w3 con'.b1 orig with
-    | none => .error (.keyError, w3)
-    | some w4 =>
-      let w5 := w4.connAdd con'.b1 names
-      .ok { w5 with connection := dset (ddel w5.connection orig) names c }
+    match connReplace w2 con'.b1 orig names with
+    | none => .error (.keyError, w2)
+    | some w3 => .ok { w3 with connection := dset (ddel w3.connection orig) names c }
 
 /-- the loop over `connection_names`; `acc` is the local `connectionlist` -/
 def reorderConnections : World → List CName → List Nat → Except (Exc × World) (World × List Nat)
